@@ -137,6 +137,10 @@ def body(ctx):
         ctx.outcome('no-exception')
         return
     from pedal.sandbox.result import unwrap_value
+    if e2 in ('call', 'evaluate') and entry != 'evaluate-expr' and unwrap_value(result) is not unwrap_value(exc):
+        # what call()/evaluate() hand back for a failed call is the failure, never a value
+        ctx.fail({'symptom': 'a failed call returned something other than the failure', 'mode': mode, 'entry': entry},
+                 case=case, returned=repr(result)[:80])
     raw = unwrap_value(exc) if hasattr(exc, '_actual_value') or type(exc).__name__ == 'SandboxResult' else exc
     got_cls = type(raw).__name__
     if len(new) != 1:
@@ -165,7 +169,7 @@ def body(ctx):
     ctx.outcome(got_cls)
 
 
-PAIR_MODES = ['ValueError', 'NameError', 'sys.exit', 'exit()', 'BadStr', 'Recursion', 'import pedal', 'open w', 'Syntax',
+PAIR_MODES = ['ValueError', 'NameError', 'FalsyLen', 'sys.exit', 'exit()', 'BadStr', 'Recursion', 'import pedal', 'open w', 'Syntax',
               'NoArgs:KeyError', 'DeepChain', 'CloseStdout', 'Finally', 'AfterPrint']
 PAIR_ENTRIES = ['run-code', 'call', 'evaluate']
 
